@@ -474,12 +474,19 @@ func c43SectionChain(t *rapid.T, ev *harn.Collector, total uint32, restarts []ui
 		var ptx []c43PlannedTx
 		if forced || rapid.IntRange(0, 59).Draw(t, "hastx") == 0 {
 			n := rapid.IntRange(1, 3).Draw(t, "ntx")
-			for j := 0; j < n; j++ {
+			hasEvm := false
+			for j := 0; j < n || (forced && !hasEvm && j < n+8); j++ {
+				// a forced (section-edge) block always carries at least one EVM tx, i.e. at least a fee log:
+				// the edge positions of the index are what these chains are for
 				p, err := env.genTx(t)
 				if err != nil {
 					t.Fatal(err)
 				}
+				hasEvm = hasEvm || p.isEvm
 				ptx = append(ptx, p)
+			}
+			if forced && hasEvm {
+				ev.Class("section:edge-block-with-evm-tx")
 			}
 		}
 		hh, _, err := env.addBlock(ptx)
